@@ -28,6 +28,10 @@ def copies(mutate=None):
     return load(IPC, src_transform=mutate.get(IPC), symbolic=False)  # every value is concrete here: real builtins
 
 
+class EndOfAttempt(BaseException):
+    """raised by the stubbed back-off sleep of _reconnect"""
+
+
 class FakeFuture:
     def __init__(self):
         self._r, self._e, self._d = None, None, False
@@ -87,7 +91,9 @@ class FakeTransport:
         self.close()
 
     def write_eof(self):
-        pass
+        if getattr(self, "reset", False):
+            # the peer has reset the connection and the loop has not reported the loss yet: shutdown() on that socket fails
+            raise OSError(107, "Transport endpoint is not connected")
 
     def set_protocol(self, p):
         self.proto = p
@@ -116,7 +122,7 @@ class Env:
 
     def __enter__(self):
         M, env = self.M, self
-        self.saved = {k: getattr(M, k) for k in ("asyncio", "asyncio_timeout", "aiohappyeyeballs", "async_create_task", "get_session_keys")}
+        self.saved = {k: getattr(M, k) for k in ("asyncio", "asyncio_timeout", "aiohappyeyeballs", "async_create_task", "get_session_keys", "interrupt")}
 
         class Loop:
             def create_future(self):
@@ -142,6 +148,9 @@ class Env:
 
             def get_running_loop(self_):
                 return env.loop
+
+            async def sleep(self_, t):
+                raise EndOfAttempt()  # the back-off sleep: this attempt is over (C10 decides what the loop does next)
 
         class NoTimeout:
             def __init__(self, t):
@@ -173,6 +182,17 @@ class Env:
             def pop_addr_infos_interleave(a, i):
                 a.clear()
 
+        class Interrupt:
+            def __init__(self, fut, exc, msg):
+                pass
+
+            async def __aenter__(self):
+                return self
+
+            async def __aexit__(self, *a):
+                return None
+
+        M.interrupt = Interrupt
         M.asyncio, M.asyncio_timeout, M.aiohappyeyeballs = AsyncioFacade(), NoTimeout, HE
         M.async_create_task = lambda coro: (coro.close(), env.tasks.append("connector"))[1]
         return self
@@ -197,9 +217,10 @@ def drive(coro):
 class FakeTask:
     def __init__(self, st):
         self.st = st  # running | finished-ok | finished-auth-error | finished-connection-error
+        self.cancel_calls = 0
 
     def cancel(self, msg=None):
-        pass
+        self.cancel_calls += 1
 
     def done(self):
         return self.st != "running"
@@ -223,6 +244,7 @@ def new_conn(M, env):
     c.is_secure = False
     c._loop = env.loop
     c._concurrency_limit = asyncio.Semaphore(1)
+    c._connect_lock = asyncio.Lock()
     c._reconnect_future = None
     c._last_connector_error = None
     c.connected_host = c.host_header = None
@@ -269,7 +291,9 @@ def attempt(M, env, conn, out, late_loss=False):
         return b"sid", (lambda salt, info, length=32: b"K" * 32)
 
     M.get_session_keys = gsk
-    return drive(conn._connect_once())
+    # through the real _reconnect (its exception classes, the immediate retry on a newly marked address) up to its back-off sleep
+    r = drive(conn._reconnect())
+    return ("raised", "failed attempt, connector sleeps") if r == ("raised", "EndOfAttempt") else r
 
 
 def history_unit(M, K, outcomes=None):
@@ -303,6 +327,7 @@ def history_unit(M, K, outcomes=None):
                 ex.require(len(net.open) <= 1, "at most one connection is open at any moment")
                 ex.require(all(t is conn.transport for t in net.open), "the only open connection is the current one")
                 if r[0] == "ok":
+                    ex.require(bool(conn.is_connected), "after a successful set-up the connection reports itself connected (otherwise every request opens another one)")
                     break
             # the accessory closes one of the connections made so far (possibly an abandoned one)
             if stale != "none" and stale < len(made) and made[stale] is not None:
@@ -320,10 +345,16 @@ def history_unit(M, K, outcomes=None):
                 ex.require(len(net.open) <= 1 and all(t is conn.transport for t in net.open), "still at most one open connection, the current one")
             if do_close:
                 ex.tag("close")
-                conn._connector = None if connector == "none" else FakeTask(connector)
+                task = conn._connector = None if connector == "none" else FakeTask(connector)
+                if conn.transport is not None and not conn.transport.closed and ex.fresh_bool("peer_reset_not_yet_reported"):
+                    conn.transport.reset = True
+                    ex.tag("reset-before-close")
                 r = drive(conn.close())
                 ex.require(r[0] == "ok", "close() completes without raising (connector: %s)" % connector)
                 ex.require(not net.open, "close() leaves no connection open")
+                ex.require(bool(conn.closing), "close() marks the connection as closing, whether or not a socket is held")
+                if connector == "running":
+                    ex.require(task.cancel_calls >= 1, "close() stops a running connector, whether or not a socket is held")
         return ex.observe([len(net.all), len(net.open)])
     return h
 
